@@ -25,8 +25,8 @@ impl Property for C11 {
     }
     fn cases(&self, tier: Tier) -> usize {
         match tier {
-            Tier::Quick => 30_000,
-            Tier::Thorough => 600_000,
+            Tier::Quick => 100_000,
+            Tier::Thorough => 1_500_000,
         }
     }
     fn tape_max(&self) -> usize {
